@@ -36,7 +36,8 @@ def _has_inner_return(fn: ast.FunctionDef) -> bool:
 
 
 def absorb_helpers(model, packages=("diameter.node", "diameter.message._base",
-                                    "diameter.message.avp.avp", "diameter.message.packer")):
+                                    "diameter.message.avp.avp", "diameter.message.packer",
+                                    "diameter.message.commands")):
     absorbed = []
     for mname, mod in model.modules.items():
         if not any(mname.startswith(p) for p in packages):
@@ -60,7 +61,12 @@ def absorb_helpers(model, packages=("diameter.node", "diameter.message._base",
                 progress = False
                 for name, helper in cands.items():
                     sites, other_refs = [], 0
-                    for f in ci.all_funcs:
+                    # (a helper of a base class is called by the methods of its subclasses too)
+                    try:
+                        family = [ci] + [c_ for c_ in model.subclasses(ci) if c_.module is mod]
+                    except Exception:
+                        family = [ci]
+                    for f in [g_ for c_ in family for g_ in c_.all_funcs]:
                         if f is helper:
                             continue
                         for parent in ast.walk(f.node):
